@@ -9,12 +9,16 @@ CLAIMED = {
    text="Machine-checked theorem (Lean 4): for every array, every optional start/stop over all integers and every non-zero step, "
         "the model of variable.rs's slice loop returns exactly Python's xs[start:stop:step] without overflow or out-of-bounds access "
         "(C07_slice_eq_python, by induction on the loop), plus the characterisation of the selected positions and negative indexes. "
+        "The bodies of slice, adjust_slice_endpoint, get_index, get_negative_index and the Index arm of interpret are RE-TRANSLATED from the Rust "
+        "source on every run (tools/rs2lean.py -> Generated/Code.lean, checked i32/usize arithmetic, casts and indexing at every site) and proved "
+        "equal to that model on the whole i32 domain (Lemmas/CodeEquiv), so C07_translated_slice_eq_python / C07_translated_index_eq_python state the "
+        "Python rule for the code as it reads now. "
         "The hand-written model is tied to the code on every run by the `slice` correspondence stream (model vs Variable::slice vs "
         "end-to-end search, boundary grid + PRNG; thorough: exhaustive small scope).",
    note="Trusted: Lean kernel (+propext, Classical.choice, Quot.sound); the model↔code correspondence is sampled (boundary grid, exhaustive for len<=6 in thorough), "
         "array length assumed to fit i32.",
    design="DESIGN.md §7 C07",
-   technique="Lean 4 theorem over a hand-written model + model/implementation correspondence (differential) check"),
+   technique="Lean 4 theorem over a model whose slice/index functions are regenerated from the Rust source on every run (translator) and proved equal to the hand model + model/implementation correspondence (differential) check"),
  "C03": dict(
    text="Machine-checked theorems (Lean 4): the model of lexer.rs/parser.rs accepts a token string iff it is the yield of a `Legal` concrete "
         "syntax tree (T1 soundness: by induction on the parser's fuel over all 15 mutually recursive parser functions; T2 completeness: "
@@ -43,7 +47,7 @@ CLAIMED = {
    technique="Lean 4 theorems over a hand-written model (exact soft-float) + model/implementation correspondence + algebraic oracles on the implementation"),
  "C04": dict(
    text="Machine-checked theorems (Lean 4): the binding-power table and every call-site power are re-extracted from lexer.rs/parser.rs on each "
-        "run and proved equal to the documented ones; the parse of every sentence is `ast` of the unique `Legal` tree spelling its tokens "
+        "run and proved equal to the documented ones, as is the public AST / token / comparator vocabulary (C04_ast_vocabulary); the parse of every sentence is `ast` of the unique `Legal` tree spelling its tokens "
         "(T1 + T2: unambiguity), every operand binds tighter than its operator (left associativity), a projection's right-hand side stops "
         "at a token binding below 10, and adding the implied parentheses yields a legal tree with the same `ast` that parses to itself. "
         "The model is tied to the code by the `parse` stream comparing full tree shape on operator-dense sentences (all ordered pairs/triples "
@@ -76,29 +80,37 @@ CLAIMED = {
         "JSON document, the model of interpreter.rs returns exactly the value an independently written denotational semantics of the "
         "specification assigns (C01_search = parser soundness T1 + C01_conformance, by mutual induction over the concrete syntax; 7 lemma "
         "files). A size side condition bounds the widest array evaluation can build by i32::MAX (the slice code's own assumption); a "
-        "machine-checked counterexample shows some such condition is necessary. Tied to the code by the `eval` stream: implementation vs "
+        "machine-checked counterexample shows some such condition is necessary. Beyond the property's core forms, C01_search_full (Props/C01Full, "
+        "8 lemma files) proves the same for the FULL language: calls of the 26 builtins with expression references denoting functions, against "
+        "Spec/SemFull.lean. The truth table and type tags are re-translated from variable.rs on every run (C01_translated_truthy_type). Tied to the code by the `eval` stream: implementation vs "
         "model vs the semantics evaluated by the driver, on the compliance suite's expression x document cross product and generated pairs.",
    note="Trusted: Lean kernel; Spec/Sem.lean as the reading of the specification (comparators delegated to C10's operator, slices to C07's rule); "
         "interpreter/parser/value models correspond to the code as sampled; arrays wider than 2^31-1 are outside the theorem (and outside any test).",
    design="DESIGN.md §7 C01",
-   technique="Lean 4 theorem (interpreter model = denotational semantics on all core expressions) + correspondence check with the semantics as oracle"),
+   technique="Lean 4 theorem (interpreter model = denotational semantics on all core expressions, and on the full language with builtins) + correspondence check with the semantics as oracle"),
  "C12": dict(
    text="Machine-checked theorems (Lean 4): line/column computed by JmespathError::new are exactly the zero-based line and character column "
         "of the byte offset for any text (loop invariant), Display inserts the caret line under that column (render shape), every token / "
         "lex-error / parse-error / tree offset is a character boundary inside the expression, a call node's offset is the position of its "
         "`(` and a slice's of its `]` (induction over all 15 parser functions), validation errors carry the offset of the call being "
-        "validated, unknown-function and invalid-slice errors the offset of their node. Tied to the code by the `eval` and `errfmt` streams "
+        "validated, unknown-function and invalid-slice errors the offset of their node; and the global invariant over whole evaluations "
+        "(C12_runtime_error_names_call, C12_search_error_located: for every compiled string and JSON document a runtime error's offset is the "
+        "position of a `(` token of a call of the named / bound function, resp. of a slice's `]`; C12_error_classes: every failure is a runtime "
+        "error, the F14 internal error, a slice fault needing an array longer than i32::MAX, or budget exhaustion). The error vocabulary is "
+        "re-extracted from errors.rs on every run (C12_error_vocabulary). Tied to the code by the `eval` and `errfmt` streams "
         "plus implementation-only oracles (class, expression text, boundary, line/column, caret rendering, `(` / `]` under the offset).",
    note="Trusted: Lean kernel; models of errors.rs/lexer.rs/parser.rs/interpreter.rs as sampled by the streams. Known finding F14 (sum/avg "
         "overflow yields a Parse-class error without expression) is listed, not suppressed beyond its class.",
    design="DESIGN.md §7 C12",
-   technique="Lean 4 theorems (line/column spec, offsets are token positions) + correspondence + implementation-only location oracles"),
+   technique="Lean 4 theorems (line/column spec, offsets are token positions, global error-location invariant by induction over the interpreter) + correspondence + implementation-only location oracles"),
  "C06": dict(
    text="Machine-checked theorems (Lean 4): the 26 signatures and registrations re-extracted from functions.rs/runtime.rs on each run equal the "
         "documented ones; for every signature the validator returns the arity error on a wrong count, the invalid-type error of the first "
         "offending position (naming declared and actual type) otherwise, and succeeds iff every argument satisfies its parameter type; "
         "validity depends only on the argument's type class, which lifts the finite class-level decision table to all values; after a "
-        "successful validation no builtin reaches an unreachable!() arm and every result has the declared result type. The class-level "
+        "successful validation no builtin reaches an unreachable!() arm and every result has the declared result type; Signature::validate_arity "
+        "is re-translated from functions.rs on every run and proved equal to the model's arity check (C06_translated_validate_arity); the "
+        "ArgumentType / JmespathType / Variable vocabularies are re-extracted too (C06_type_vocabulary). The class-level "
         "decision table (26 builtins x counts 0..declared+2 x 10 classes per position; ~109k cells, exhaustive in the thorough tier, all "
         "cells up to 3 arguments in the quick tier) is run against the code, the model and an independent Python table of the specification.",
    note="Trusted: Lean kernel; translate.py's regex extraction; the Python SPEC table as the reading of the function specification; `any` admits expression references (that is what is declared).",
@@ -108,7 +120,8 @@ CLAIMED = {
    text="Machine-checked theorems (Lean 4) about what a model can carry of totality — recursion depth and loop bounds: lexer and parser terminate on "
         "every input within 8*|tokens|+8 recursion frames; number tokens fit i32 with room for negation; the slice loops never overflow, index "
         "out of bounds or run away for any start/stop/step; no builtin reaches unreachable!() after validation and the validator cannot panic; "
-        "search terminates with a JSON result on every JSON document for every expression whose expression references stay in expref-typed "
+        "in the slice / endpoint / index code as RE-TRANSLATED from the source on every run no i32/usize operation overflows and no indexing faults "
+        "on the whole i32 domain (C05_translated_code_no_fault); search terminates with a JSON result on every JSON document for every expression whose expression references stay in expref-typed "
         "parameters; fuel monotonicity. Negative result, also proved: a grammatical expression in which an expression reference reaches the "
         "data diverges for every fuel (known finding F13). The streams run the real code under catch_unwind in child processes and attribute "
         "aborts/hangs to cases: numeric extremes, malformed quoted forms, Unicode soup, huge/deep documents, nesting probes 10..100000.",
@@ -117,7 +130,10 @@ CLAIMED = {
    design="DESIGN.md §7 C05",
    technique="Lean 4 theorems (fuel sufficiency, termination, no-fault slices, divergence witness) + panic/abort/hang harness streams"),
  "C02": dict(
-   text="Machine-checked theorems (Lean 4; 57 lemmas, 23 restated as property theorems) over the model of functions.rs, each for all well-typed "
+   text="Machine-checked theorems (Lean 4): C02_every_builtin_meets_spec — for each of the 26 builtins and every argument list that satisfies its "
+        "signature, a successful call returns a value allowed by ONE independently written relational specification of the function "
+        "specification (Spec/Functions.lean; one visible exclusion: to_number of a number padded with JSON white space); and 57 lemmas, 23 restated "
+        "as property theorems, over the model of functions.rs, each for all well-typed "
         "arguments: sort/sort_by are stable ascending permutations (code-point order on strings, double order on numbers), max/min/max_by/"
         "min_by return an input element with the extreme key (first on ties for *_by), merge is right-biased, length/reverse count code points, "
         "keys/values zip to the members, to_number yields a number or null only, avg [] = null and avg = sum/len, map preserves length and "
@@ -130,7 +146,7 @@ CLAIMED = {
    note="Trusted: Lean kernel; slice::sort modelled as a stable merge sort (List.mergeSort); that the hardware's doubles behave as "
         "IEEE-754 binary64 (what the soft-float model is proved to be) is validated by the stream against Python floats; tools/fnspec.py as the reading of the function specification.",
    design="DESIGN.md §7 C02",
-   technique="Lean 4 contract theorems per builtin + correspondence + independent reference-semantics oracle"),
+   technique="Lean 4 theorem (all 26 builtin models meet one relational function specification) + contract theorems per builtin + correspondence + independent reference-semantics oracle"),
  "C11": dict(
    text="Machine-checked theorems (Lean 4): with big-step evaluation `Evals` (enough fuel, any value of the offset register), each compound "
         "node is characterised exactly (iff) by the evaluations of its parts, for all sub-trees (function calls included) and documents: "
@@ -209,7 +225,8 @@ CLAIMED = {
    text="Machine-checked theorems (Lean 4) over a model of jp's decision logic with the library models plugged in: exit 0 with the pretty-printed "
         "result and a newline exactly when an expression is given in exactly one way, compiles, the input is readable valid JSON and the "
         "search succeeds; every failure prints nothing to stdout, something to stderr and exits non-zero; --unquoted affects string "
-        "results only; --ast never reads the input. The `cli` stream runs the real binary (built from /repo/jmespath-cli/src/main.rs) on "
+        "results only; --ast never reads the input; the clap argument table, die!'s stderr + exit code and the stage order of main are "
+        "re-extracted from main.rs on every run and proved to be what the model assumes (C18_cli_surface). The `cli` stream runs the real binary (built from /repo/jmespath-cli/src/main.rs) on "
         "generated combinations of expressions, inputs (valid / invalid JSON, non-UTF-8, missing files), -e / -f / -u / --ast, and "
         "compares exit status, stdout bytes and stderr-non-empty with the model, plus shape oracles on the binary alone.",
    note="PARTIAL BY NATURE: process exit, pipes, the file system and clap's argument parsing are observed on sampled runs, not modelled; the Debug "
